@@ -66,7 +66,7 @@ func init() {
 			func(s *e1.Stats) bool { return s.SessionsEnded >= 1 && s.SIDsReused >= 1 })
 		partGated(c, a, []func(*sut.Proc) *e2.Result{e2.G1JoinVsLastLeave, e2.G2TwoLastLeaves, e2.G3LateUnregister, e2.G3cLastLeaveVsCreate}, c.Pick(2, 10))
 		partRegistryStorms(c, a)
-		partStepThrough(c, a, []string{"lastleave", "create", "switch", "join", "leave", "join-vs-lastleave"})
+		partStepThrough(c, a, []string{"lastleave", "create", "switch", "join", "leave", "join-vs-lastleave", "switch-vs-lastleave"})
 		partStepPairs(c, a, [][2]string{{"lastleave", "join2"}, {"lastleave", "leave2"}, {"switch", "join2"}, {"leave", "join2"}, {"join", "leave2"}})
 		partRealRegistryAcrossReregistration(c, a) // sessions that outlive a change of the server id still end
 		return a.finish(c)
